@@ -201,29 +201,23 @@ theorem C18.validate_reject_explained (H : Hier) (ls : List Link) (hinv : ∀ l 
       simp only [Spec.rightLeftReuse, List.any_eq_true, Bool.and_eq_true, Bool.or_eq_true, beq_iff_eq]
       exact ⟨i, hi, j, hj, ⟨differ_of_not_linkEq hne, hr⟩, hl⟩
 
-/-- a tiny universe for witnesses: classes 0,1,2 are direct subclasses of `FeatureGroup`, 3 derives from 0 -/
-def C18.H0 : Hier :=
-  { parent := fun c => if c = 3 then some 0 else none,
-    name := fun c => if c = 0 then "A" else if c = 1 then "B" else if c = 2 then "C" else "A1",
-    indexDecl := fun _ => none }
-
 /-- NEGATION WITNESS (finding F-C18-same-pair-same-type, DESIGN O15): `{inner(A.k1,B.k1), inner(A.k2,B.k2)}` is accepted
 although it contains two different joins between the same pair. -/
 theorem C18.validate_vs_property_witness :
     let ls : List Link := [⟨.inner, 0, 1, ["k1"], ["k1"], 0⟩, ⟨.inner, 0, 1, ["k2"], ["k2"], 1⟩]
-    validateLinks C18.H0 ls = .ok ∧ Spec.contradictory ls = true := by decide
+    validateLinks witnessHier ls = .ok ∧ Spec.contradictory ls = true := by decide
 
 /-- non-vacuity: the hypotheses of `validate_vs_property_partial` hold for a real 3-link chain, which is accepted -/
 example :
     let ls : List Link := [⟨.inner, 0, 1, ["k"], ["k"], 0⟩, ⟨.left, 1, 2, ["k"], ["k"], 1⟩, ⟨.append, 2, 0, ["k"], ["k"], 2⟩]
-    validateLinks C18.H0 ls = .ok ∧ Spec.contradictory ls = false ∧ Spec.rightLeftReuse ls = false := by decide
+    validateLinks witnessHier ls = .ok ∧ Spec.contradictory ls = false ∧ Spec.rightLeftReuse ls = false := by decide
 
 /-- non-vacuity: each of the three coded checks fires on its textbook input -/
-example : validateLinks C18.H0 [⟨.inner, 0, 1, ["k"], ["k"], 0⟩, ⟨.inner, 1, 0, ["k"], ["k"], 1⟩] = .double 0 1 := by decide
-example : validateLinks C18.H0 [⟨.inner, 0, 1, ["k"], ["k"], 0⟩, ⟨.left, 0, 1, ["k"], ["k"], 1⟩] = .conflict 0 1 := by decide
-example : validateLinks C18.H0 [⟨.right, 0, 1, ["k"], ["k"], 0⟩, ⟨.right, 0, 2, ["k"], ["k"], 1⟩] = .rightJoin 0 1 := by decide
+example : validateLinks witnessHier [⟨.inner, 0, 1, ["k"], ["k"], 0⟩, ⟨.inner, 1, 0, ["k"], ["k"], 1⟩] = .double 0 1 := by decide
+example : validateLinks witnessHier [⟨.inner, 0, 1, ["k"], ["k"], 0⟩, ⟨.left, 0, 1, ["k"], ["k"], 1⟩] = .conflict 0 1 := by decide
+example : validateLinks witnessHier [⟨.right, 0, 1, ["k"], ["k"], 0⟩, ⟨.right, 0, 2, ["k"], ["k"], 1⟩] = .rightJoin 0 1 := by decide
 /-- the documented exemption: APPEND in both directions is accepted -/
-example : validateLinks C18.H0 [⟨.append, 0, 1, ["k"], ["k"], 0⟩, ⟨.append, 1, 0, ["k"], ["k"], 1⟩] = .ok := by decide
+example : validateLinks witnessHier [⟨.append, 0, 1, ["k"], ["k"], 0⟩, ⟨.append, 1, 0, ["k"], ["k"], 1⟩] = .ok := by decide
 
 /-! ## Matching -/
 
@@ -410,8 +404,8 @@ theorem C18.balanced_only_partial (H : Hier) (ls : List Link) (x y : Cls)
 pair `(A1, C)` (distances 1 and 0) although the documented rule admits only equal distances. -/
 theorem C18.asymmetric_witness :
     let ls : List Link := [⟨.inner, 0, 2, ["k"], ["k"], 7⟩]
-    findMatchingLinks C18.H0 ls 3 2 = ls ∧ Spec.findLinks C18.H0 ls 3 2 = [] ∧
-      asymmetricAdmitted C18.H0 3 2 ⟨.inner, 0, 2, ["k"], ["k"], 7⟩ = true := by decide
+    findMatchingLinks witnessHier ls 3 2 = ls ∧ Spec.findLinks witnessHier ls 3 2 = [] ∧
+      asymmetricAdmitted witnessHier 3 2 ⟨.inner, 0, 2, ["k"], ["k"], 7⟩ = true := by decide
 
 /-- the asymmetric rule can also add a link next to a balanced one that the property alone would select -/
 example :
@@ -469,7 +463,7 @@ theorem C18.engine_validates_api (H : Hier) (api : List Link) (out : List Link)
 input features reaches the planner, although `validate_links` rejects the very same set. -/
 theorem C18.feature_links_unvalidated_witness :
     let ls : List Link := [⟨.inner, 0, 1, ["k"], ["k"], 0⟩, ⟨.inner, 1, 0, ["k"], ["k"], 1⟩]
-    (engineLinks C18.H0 none ls).toOption = some ls ∧ Spec.contradictory ls = true ∧ validateLinks C18.H0 ls = .double 0 1 := by
+    (engineLinks witnessHier none ls).toOption = some ls ∧ Spec.contradictory ls = true ∧ validateLinks witnessHier ls = .double 0 1 := by
   decide
 
 /-! ## MRO facts the matching rules rest on -/
